@@ -13,8 +13,8 @@ pub static PROP: PropDef = PropDef {
     builds: opt_only,
     max_tape: 40,
     cases: |t| match t {
-        Tier::Quick => 12_000,
-        Tier::Thorough => 300_000,
+        Tier::Quick => 100_000,
+        Tier::Thorough => 2_000_000,
     },
     fixed,
     check,
